@@ -164,7 +164,7 @@ PROPS = {
                      "Pep508.C06.marker_expression_never_panics", "Pep508.C06.marker_expression_err_span", "Pep508.C06.take_while_sliceable",
                      "Pep508.parseMarkers_total", "Pep508.descentOK", "Pep508.Cursor.takeWhile_slice",
                      "Pep508.C06.requirement_never_panics", "Pep508.C06.requirement_err_span", "Pep508.C06.requirement_external_calls",
-                     "Pep508.C06.requirement_url_ends_span", "Pep508.C06.extras_never_panic", "Pep508.C06.name_never_panics"],
+                     "Pep508.C06.requirement_url_ends_span", "Pep508.C06.requirement_url_ends_ok_span", "Pep508.C06.extras_never_panic", "Pep508.C06.name_never_panics"],
         "suites": [{"name": "mparse", "args": ["C06"]}, {"name": "req", "args": ["C06"]}],
         "rule": "marker texts: the full operand-kind x operator x operand-kind table, derivations x layouts, and hostile mutations (multi-byte characters at token boundaries, "
                 "U+3000/U+0085 whitespace, NUL, lone quotes, truncations) through MarkerTree::parse_reporter and MarkerExpression::parse_reporter; requirement texts: derivations "
